@@ -560,7 +560,18 @@ impl<'tcx> Cx<'tcx> {
                 TerminatorKind::UnwindResume => s.push_str("{\"t\":\"resume\"}"),
                 TerminatorKind::UnwindTerminate(_) => s.push_str("{\"t\":\"abort\"}"),
                 TerminatorKind::Drop { place, target, .. } => {
-                    let _ = write!(s, "{{\"t\":\"drop\",\"pl\":{},\"to\":{}}}", self.place(i, body, place), target.as_usize());
+                    let dty = self.mono(i, place.ty(body, self.tcx).ty);
+                    let mut ws_drop = false;
+                    for inner in dty.walk() {
+                        if let Some(it) = inner.as_type() {
+                            if let ty::Adt(a, _) = it.kind() {
+                                if self.is_ws(&self.tcx.crate_name(a.did().krate).to_string()) && self.tcx.adt_destructor(a.did()).is_some() {
+                                    ws_drop = true;
+                                }
+                            }
+                        }
+                    }
+                    let _ = write!(s, "{{\"t\":\"drop\",\"pl\":{},\"to\":{},\"ws_drop\":{},\"at\":{}}}", self.place(i, body, place), target.as_usize(), ws_drop, at);
                 }
                 TerminatorKind::Assert { cond, expected, target, msg, .. } => {
                     let _ = write!(
@@ -625,6 +636,13 @@ impl<'tcx> Cx<'tcx> {
                                 if self.should_walk(ci, &key) {
                                     leaf = false;
                                     queue.push(ci);
+                                } else if self.is_ws(&self.tcx.crate_name(ci.def_id().krate).to_string())
+                                    && matches!(ci.def, ty::InstanceKind::Item(_))
+                                    && self.tcx.impl_of_assoc(ci.def_id()).map(|im| !self.tcx.is_automatically_derived(im)).unwrap_or(false)
+                                {
+                                    // a HAND-WRITTEN workspace impl of a comparison / clone / debug trait is kept as an atomic leaf like the
+                                    // derived ones, but nothing is known about its body: opaque effect
+                                    ws_iter = true;
                                 } else if self.mentions_ws_iterator(ci) {
                                     // library code instantiated with a workspace type that implements Iterator may call that type's
                                     // `next()` (collect / sum / count / for_each over a hand-written iterator): not followed -> opaque effect
